@@ -60,8 +60,8 @@ CLAIMED = {
              note="process_block == one UBI step (key = chaining value, tweak = position/flags, Threefish of the block xor the block) is proved on the real code with MIX as uninterpreted function against the same Threefish specification as C09; MIX itself by the mix contract. N ranges over {1,7,8,20,32,33,64,65} x256, {1,32,64,65} x512, {1,32,64,128,129,200} x1024. Skein256/512<200> dropped: Kani false alarm on the 8-byte tail chunk, cross-checked natively (DESIGN.md 8).",
              ref="DESIGN.md 4 C05"),
  "C06": dict(technique="Kani contracts on the mode of operation with Compressor::input as uninterpreted function + call log",
-             text="Padding (one block iff block-aligned, else two), 128-bit big-endian bit length, chaining, output = tail of the 1024-bit state, byte counter exact -- for a symbolic chaining value and byte count.",
-             note="F8: ss / l leaf contracts per backend and the wiring of Compressor::input (42 rounds, round-constant selection, swap schedule, message XORs) through the real dispatch. NOT decided: bit-sliced F8 == the specification's nibble-oriented E8, the round-constant table and the IV constants; assumed (pinned on this host by the repository's 321 KATs). DESIGN.md 4 C06.",
+             text="Compression function F8 == the JH specification's E8 with the message XORs (see note) on every backend; padding (one block iff block-aligned, else two), 128-bit big-endian bit length, chaining, output = tail of the 1024-bit state, byte counter exact -- for a symbolic chaining value and byte count; initial values.",
+             note="F8: ss / l leaf contracts per backend and the wiring of Compressor::input (42 rounds, round-constant selection, swap schedule, message XORs) through the real dispatch. Bit-sliced F8 == the specification's nibble-oriented E8: the bit-slice formulation the crate is proved equal to is related to the JH document's E8 (256 four-bit elements, S0/S1, L, P8, grouping) by computed round-dependent layouts: grouping/de-grouping (J1), one round for each of the 7 layout classes with symbolic state and constant (J2), the 42 bit-sliced round constants decode to C_r = R6(C_{r-1}) from the sqrt(2) seed (J3), layouts well formed and 7-periodic (J4), composed by a Verus conjugation lemma; initial values == F8(digest-size block, 0). Remaining trust: the instantiation of the generic Verus lemma and the swap operations' C12 contracts.",
              ref="DESIGN.md 4 C06"),
  "C07": dict(technique="Kani contracts on the mode of operation with init/tf/of as uninterpreted functions + call log",
              text="Compression function == specification P and Q (see note); IV = output size big-endian, padding with the 64-bit big-endian block count including padding blocks for every 64-bit counter value, one-vs-two final blocks at the <=8-bytes-left boundary, output transformation and truncation windows, reset of the truncated variants.",
